@@ -10,7 +10,7 @@ CHECKS = {
     'C20': {
         'technique': 'Coq proof: sound abstract interpreter over a small environment-program language (all fault schedules, branch choices, initial environments), applied by vm_compute to skeletons regenerated from the source; exhaustive single-fault injection on the real entry points as correspondence',
         'text': 'restores_check_sound/environment_restored: for EVERY program of the environment language, every fault schedule (an exception at any call, any branch, caught or not) and every initial environment, a passing check implies every variable has its entry value/absence afterwards. The skeletons of window_score and template_input (with template_metadata inlined) are regenerated from /repo on every run and the theorems C20_window_score_env / C20_template_input_env are re-proved on them, so moving a restore out of finally, forgetting a variable or restoring before the last fallible call breaks a proof. Correspondence: every Python-level call made by the real entry points is made to raise in turn, for all set/unset states; the full process environment is diffed and the observed os.environ operation trace must be accepted by the skeleton.',
-        'note': 'Trusted: translate/c20.py (idiom recognition, fail-closed), the unproved trace matcher `accepts`, sys.settrace fault injector, CPython try/finally semantics, collaborators outside the module not writing the environment (observed by full-environment diff on every run). Theorems closed under the global context.',
+        'note': 'Trusted: translate/c20.py (idiom recognition, fail-closed), the trace matcher `accepts` (completeness proved: C20_accepts_complete; soundness not proved), sys.settrace fault injector, CPython try/finally semantics, collaborators outside the module not writing the environment (observed by full-environment diff on every run). Theorems closed under the global context.',
         'design_ref': 'DESIGN.md section 4 (C20)',
     },
 }
